@@ -464,7 +464,7 @@ def p_C04(ctx):
     # through every window, every yielded reference written through, whole root compared (SeqIter.tla / IterMC.tla)
     mk = ["rows_mut", "col_mut", "cells_mut", "into_mut"]
     si = iter_tlc(ctx, "mutiter-sequences", mk, [23] if ctx.quick else [13, 31, 23, 32, 33], rkinds=("owned", "slice_m"), depth=1,
-                  bigs=(BIG_MAX,), seqmode=True, maxcalls=2 if ctx.quick else 3, workers=8 if ctx.quick else 12)
+                  bigs=(BIG_MAX,), seqmode=True, maxcalls=2, workers=8 if ctx.quick else 12)
     seli = os.path.join(ctx.outdir, "mutiter.sel.ndjson")
     core.filter_cases(si.cases_path, seli, lambda c: len(c["stack"]) > 0)
     ctx.count_nontrivial(seli, iter_key)
@@ -641,12 +641,16 @@ def iter_pipeline(ctx, kinds, what):
     combos = [("dev", "u32"), ("release", "elem"), ("release", "zst")] + ([] if q else [("release", "u32"), ("dev", "elem"), ("dev", "zst")])
     for prof, elem in combos:
         ctx.replay(r.cases_path, attr_iter, profile=prof, elem=elem, label="edges")
-    sq = iter_tlc(ctx, "sequences", kinds, [23, 32] if q else [13, 31, 23, 32, 33], rkinds=("owned",), depth=1 if q else 1,
-                  bigs=(BIG_MAX,), seqmode=True, maxcalls=2 if q else 3, workers=8 if q else 12)
-    ctx.count_nontrivial(sq.cases_path, iter_key)
-    ctx.sample_from(sq.cases_path, 2)
-    for prof, elem in ([("dev", "u32")] if q else [("dev", "u32"), ("release", "u32")]):
-        ctx.replay(sq.cases_path, attr_iter, profile=prof, elem=elem, label="sequences")
+    # every call PAIR on five shapes; (thorough) every call TRIPLE on the smallest shape that has an interior (the number of
+    # sequences grows by a factor of about twenty per call since the provided methods joined the operation list)
+    seqs = [("sequences", [23, 32] if q else [13, 31, 23, 32, 33], 2)] + ([] if q else [("sequences3", [22], 3)])
+    for sname, sshapes, depth_calls in seqs:
+        sq = iter_tlc(ctx, sname, kinds, sshapes, rkinds=("owned",), depth=1, bigs=(BIG_MAX,), seqmode=True, maxcalls=depth_calls,
+                      workers=8 if q else 12)
+        ctx.count_nontrivial(sq.cases_path, iter_key)
+        ctx.sample_from(sq.cases_path, 2)
+        for prof, elem in ([("dev", "u32")] if q else [("dev", "u32"), ("release", "u32")]):
+            ctx.replay(sq.cases_path, attr_iter, profile=prof, elem=elem, label=sname)
     w = iter_tlc(ctx, "walks", kinds, [23, 32, 33, 34, 43], rkinds=("owned", "slice_m"), depth=1, bigs=(BIG_MAX,), maxcalls=6,
                  walk=300 if q else 5000)
     ctx.count_nontrivial(w.cases_path, iter_key)
